@@ -57,14 +57,14 @@ const ocspURL = "http://ocsp.test/r1"
 // ---------------------------------------------------------------- C05 cast
 
 type c05Cast struct {
-	p         *world.PKI
-	issuer    *world.Ident // RSA issuing CA (deterministic signatures)
-	leaf      *world.Ident
-	delegated *world.Ident // issued by issuer, EKU OCSPSigning
+	p          *world.PKI
+	issuer     *world.Ident // RSA issuing CA (deterministic signatures)
+	leaf       *world.Ident
+	delegated  *world.Ident // issued by issuer, EKU OCSPSigning
 	delegNoEKU *world.Ident
-	stranger  *world.Ident
-	sibling   *world.Ident
-	chain     [][]*x509.Certificate
+	stranger   *world.Ident
+	sibling    *world.Ident
+	chain      [][]*x509.Certificate
 }
 
 func newC05Cast() *c05Cast {
@@ -80,12 +80,12 @@ func newC05Cast() *c05Cast {
 }
 
 type c05Case struct {
-	Signer    string // issuer | delegated-eku | delegated-no-eku | client-own | stranger-embedded | stranger-bare | sibling-ca | issuer-embedded
+	Signer      string // issuer | delegated-eku | delegated-no-eku | client-own | stranger-embedded | stranger-bare | sibling-ca | issuer-embedded
 	OtherSerial bool
-	Status    int // ocsp.Good/Revoked/Unknown
-	RespStatus int // 0 successful, 1 malformed, 2 internal, 3 tryLater, 6 unauthorized
-	FlipBit   int // -1 none
-	FlipSeed  string
+	Status      int // ocsp.Good/Revoked/Unknown
+	RespStatus  int // 0 successful, 1 malformed, 2 internal, 3 tryLater, 6 unauthorized
+	FlipBit     int // -1 none
+	FlipSeed    string
 }
 
 func (c c05Case) String() string {
